@@ -33,6 +33,9 @@ func init() {
 	register(&Rule{ID: "C03.8", Prop: "C03", Min: 3,
 		Text: "error routes still reply: every `return nil` of bindCall leaves a non-OK status in c.stat (hook veto, bad message, not found), so handleCall answers with an error instead of dropping the call",
 		Run:  runC03_8})
+	register(&Rule{ID: "C03.10", Prop: "C03", Min: 3,
+		Text: "an error reply is always encodable: on the non-OK edge writeReply sets the status and clears body and body codec on every path before session.write (otherwise the fallback reply after a marshalling failure fails too and the call is never answered)",
+		Run:  runErrorReplyConstruction})
 	register(&Rule{ID: "C03.9", Prop: "C03", Min: 2,
 		Text: "read-error classification in the read loop: a read error with a nil body codec, or a session that left the readable states, ends the loop (disconnect); any other read error is stored in ctx.stat before the message is dispatched",
 		Run:  runC03_9})
@@ -496,6 +499,27 @@ func runC03_4(c *Ctx) {
 			}
 		}
 		after := p.ReachableFrom(st, isWR, nil, nil)
+		// nothing that can panic may run between the successful write and the flag: a panic there
+		// (e.g. in a PostWriteReply plugin) would make the deferred closure answer a second time
+		for _, e := range CondCallEdges(fn, okM) {
+			call, isC := e.Recv.(*ssa.Call)
+			if !isC || CalleeObj(call) != writeReply || !BlockDominatesInstr(e.True, st) {
+				continue
+			}
+			var between []ssa.Instruction
+			w := &Walk{P: p, Stop: func(i ssa.Instruction) bool {
+				if i == ssa.Instruction(st) {
+					return true
+				}
+				if _, isCall := i.(ssa.CallInstruction); isCall {
+					between = append(between, i)
+				}
+				return false
+			}}
+			w.FromBlock(e.True)
+			c.Check(len(between) == 0, "written flag set before anything else can panic", p.InstrPos(st), "no call between the successful writeReply and `writed = true`",
+				fmt.Sprintf("%d call(s) run between the successful reply write and `writed = true` (first: %s): a panic there makes the recover path write a second reply for the same call", len(between), firstDesc(p, between)))
+		}
 		c.fact("dominance+path-search")
 		c.Check(onOK && len(after) == 0, "written flag set only after a successful write", p.InstrPos(st), "on writeReply's OK edge; no write follows", "`writed = true` is set on a path where the reply was not successfully written, or a write follows it: the panic path would then skip/duplicate the reply")
 	}
@@ -864,4 +888,70 @@ func runC03_9(c *Ctx) {
 		}
 	}
 	c.Check(hasCodecTest && postGate, "undecodable-frame / closed-session ends the loop", p.InstrPos(readCall), "nil-codec read errors and a failed goonRead() lead to return (disconnect), never to dispatch", "the loop no longer disconnects on an unframeable message or on a session that left the readable states")
+}
+
+func firstDesc(p *Prog, is []ssa.Instruction) string {
+	if len(is) == 0 {
+		return ""
+	}
+	return describeCall(is[0]) + " at " + p.InstrPos(is[0])
+}
+
+// runErrorReplyConstruction (C03.10 / C04.2): on the non-OK edge writeReply sets the status, clears
+// the body and the body codec before the frame is written, so an error reply is always encodable.
+func runErrorReplyConstruction(c *Ctx) {
+	p := c.P
+	fn := p.Fn(Root, "handlerCtx", "writeReply")
+	okM := p.MethodObj("github.com/henrylee2cn/goutil/status", "Status", "OK")
+	write := p.MethodObj(Root, "session", "write")
+	setStatus := p.MethodObj(Root+"/socket", "Header", "SetStatus")
+	setBody := p.MethodObj(Root+"/socket", "Body", "SetBody")
+	setCodec := p.MethodObj(Root+"/socket", "Body", "SetBodyCodec")
+	hcN, outIdx := p.FieldIndex(Root, "handlerCtx", "output")
+	statParam := fn.Params[1]
+	var edge *CondEdge
+	for _, e := range CondCallEdges(fn, okM) {
+		if Resolve(e.Recv) == ssa.Value(statParam) || e.Recv == ssa.Value(statParam) {
+			e := e
+			edge = &e
+		}
+	}
+	writes := CallsTo(fn, write)
+	if edge == nil || len(writes) != 1 {
+		c.Undec("writeReply error-reply construction", p.Pos(fn.Pos()), "cannot find the stat.OK() test / the single write in writeReply")
+		return
+	}
+	need := map[string]func(ssa.Instruction) bool{
+		"SetStatus(stat)": func(i ssa.Instruction) bool {
+			call, ok := i.(*ssa.Call)
+			return ok && CalleeObj(call) == setStatus && isFieldLoad(call.Call.Value, hcN, outIdx) && (call.Call.Args[0] == ssa.Value(statParam) || Resolve(call.Call.Args[0]) == ssa.Value(statParam))
+		},
+		"SetBody(nil)": func(i ssa.Instruction) bool {
+			call, ok := i.(*ssa.Call)
+			return ok && CalleeObj(call) == setBody && isFieldLoad(call.Call.Value, hcN, outIdx) && IsNilConst(call.Call.Args[0])
+		},
+		"SetBodyCodec(NilCodecID)": func(i ssa.Instruction) bool {
+			call, ok := i.(*ssa.Call)
+			if !ok || CalleeObj(call) != setCodec || !isFieldLoad(call.Call.Value, hcN, outIdx) {
+				return false
+			}
+			k, okc := ConstIntOf(call.Call.Args[0])
+			return okc && k == 0
+		},
+	}
+	for _, name := range []string{"SetStatus(stat)", "SetBody(nil)", "SetBodyCodec(NilCodecID)"} {
+		pred := need[name]
+		// every path from the non-OK edge to the write passes it
+		w := &Walk{P: p, Stop: func(i ssa.Instruction) bool { return pred(i) || i == writes[0].(ssa.Instruction) }}
+		w.FromBlock(edge.False)
+		ok := len(w.Hits) > 0
+		for _, h := range w.Hits {
+			if h == writes[0].(ssa.Instruction) {
+				ok = false
+			}
+		}
+		c.fact("must-pass")
+		c.Check(ok, "error reply: "+name+" before the write", p.InstrPos(edge.If), "on every path from the non-OK edge to session.write",
+			"an error reply can be written without "+name+": the caller does not see the error status, or the reply still carries the (possibly un-encodable) body / codec and the fallback reply fails too - the call is never answered")
+	}
 }
